@@ -87,7 +87,7 @@ MANIFEST = dict(
           "to an insertion-ordered reference map (lookup function + key order) for every history, at() throws iff absent, erase keeps "
           "order, re-insertion appends, type-mismatched reads return the default and touch nothing, query flag characterised for every "
           "history. The model is tied to the code by running the same random op histories through the real classes (4 key/value "
-          "instantiations, 6 parameter types, ASan/UBSan) and the compiled model and diffing every observation."),
+          "instantiations incl. a key type whose copies throw, 8 parameter types incl. one whose k-th copy throws during an overwrite — every k —, ASan/UBSan) and the compiled model and diffing every observation."),
     note=("Trusted: Lean kernel; axioms propext/Classical.choice/Quot.sound; the hand-written model is tied to the code only by the "
           "correspondence harness (generators + canonicalisation) and g++/sanitizer runtimes; std::vector/find_if/stable_partition/"
           "shared_ptr and Any::is/get are assumed to meet their specifications."),
